@@ -45,10 +45,38 @@ def make_points(rng, names, n=3):
     return pts
 
 
+def nonconstant_repetition_cases():
+    """A repetition that is NOT constant over a child with ancillae of its own: the hierarchy is refused (a qubits resource
+    cannot be carried through such a repetition), it is not compiled with the child's ancillae counted a second time."""
+    def node(name, params=(), ports=(), conns=(), kids=(), links=(), res=(), rep=None):
+        return {"name": name, "type": None, "input_params": list(params), "local_variables": [], "linked_params": [list(l) for l in links],
+                "ports": list(ports), "resources": list(res), "connections": [list(c) for c in conns], "repetition": rep, "children": list(kids)}
+
+    def port(n, d, size):
+        return {"name": n, "direction": d, "size": size}
+    out = []
+    seqs = [{"kind": "arithmetic", "initial_term": E.num(1), "difference": E.num(2)}, {"kind": "geometric", "ratio": E.num(2)},
+            {"kind": "custom", "term_expression": E.op("add", E.sym("i"), E.num(1)), "iterator_symbol": "i"}, {"kind": "constant", "multiplier": E.num(2)}]
+    for seq in seqs:
+        step = node("step", params=["N"], ports=[port("in_0", "input", E.sym("N")), port("out_0", "output", E.sym("N"))],
+                    res=[{"name": "local_ancillae", "type": "qubits", "value": E.num(2)}, {"name": "T", "type": "additive", "value": E.num(4)}])
+        loop = node("loop", params=["N", "K"], links=[["N", [["step", "N"]]]], ports=[port("in_0", "input", E.sym("N")), port("out_0", "output", None)],
+                    conns=[["in_0", "step.in_0"], ["step.out_0", "out_0"]], kids=[step], rep={"count": E.sym("K"), "sequence": seq})
+        root = node("root", params=["N", "K"], links=[["N", [["loop", "N"]]], ["K", [["loop", "K"]]]],
+                    ports=[port("in_0", "input", E.sym("N")), port("out_0", "output", None)],
+                    conns=[["in_0", "loop.in_0"], ["loop.out_0", "out_0"]], kids=[loop], res=[{"name": "local_ancillae", "type": "qubits", "value": E.num(1)}])
+        out.append({"routine": root, "n_eval": 2, "eval_seed": 3, "native": False, "expect_refusal": seq["kind"] != "constant"})
+    return out
+
+
 def emit(pairs):
     lines = [lib.CASE_HEADER.format(imports="RepModel Routine Compile CompileTop Highwater Checks", gen_imports="")]
     items = []
     for k, (case, imp) in enumerate(pairs):
+        if case.get("expect_refusal"):
+            refused = (not imp.get("ok")) and imp.get("exc") == "BartiqCompilationError"
+            items.append("([], [0%nat])" if refused else "([], [1%nat])")
+            continue
         lines.append(f"Definition i{k} : impl_result := {H.impl_to_coq(imp)}.")
         names = H.tree_input_params(imp["tree"]) if imp.get("ok") else set()
         pts = H.points_to_coq(make_points(lib.Rng(f"pts-{lib.case_hash(case)}"), names))
@@ -98,7 +126,7 @@ def mk_stream(cases):
 def streams(tier, seed):
     rng = lib.Rng(f"C16-{seed}")
     n = 150 if tier == "quick" else 2500
-    return [mk_stream(lib.load_corpus(PROP, "hier-highwater") + gen_cases(rng, n, 3 if tier == "quick" else 4))]
+    return [mk_stream(lib.load_corpus(PROP, "hier-highwater") + nonconstant_repetition_cases() + gen_cases(rng, n, 3 if tier == "quick" else 4))]
 
 
 def replay_streams(payload):
